@@ -88,6 +88,9 @@ where
     P1::Point:  Coordinate+Coordinate2D,
     POut:       BezierPathFactory<Point=P1::Point>,
 {
+    #[cfg(flo_curves_verif)]
+    super::ray_cast::verif_trace::push(super::ray_cast::verif_trace::Event::Op("remove_interior", vec![super::ray_cast::verif_trace::fingerprint(path)]));
+
     // Create the graph path from the source side
     let mut merged_path = GraphPath::new();
     merged_path         = merged_path.merge(GraphPath::from_merged_paths(path.iter().map(|path| (path, PathLabel(0)))));
